@@ -86,10 +86,12 @@ def asPathOf (c : Cfg) (t : St) : Option String :=
   | none => c.asPath
   | some p => some p
 
-/-- the selector part: `', '.join(f'peer {n}' ...)` or `peer *` -/
+/-- the selector part: `peer <n>`, `peer [ a , b ]` for several neighbors, or `peer *` -/
 def selector (c : Cfg) : String :=
   if !c.neighbors.isEmpty && !c.neighbors.any (· == "*") then
-    ", ".intercalate (c.neighbors.map (fun n => "peer " ++ n))
+    match c.neighbors with
+    | [n] => "peer " ++ n
+    | ns => "peer [ " ++ " , ".intercalate ns ++ " ]"
   else "peer *"
 
 /-- `action == 'announce'` for this target -/
